@@ -595,10 +595,59 @@ theorem xinv_init (sdb : SDb) (m : Int) (L : List Str) :
     intro _
     omega
 
+/-- the second loop: the dangling references of the appended entries -/
+theorem danglingExtras_spec {db : BibData} (hdb : DbWF db) (X : List Str) :
+    db.danglingExtras X = (dangling db.toS X).map fun p => Report.badCrossref p.1 p.2 := by
+  induction X with
+  | nil => simp [BibData.danglingExtras, dangling]
+  | cons c X ih =>
+    simp only [BibData.danglingExtras]
+    have hfc := getItem_entries hdb c
+    cases hgc : db.entries.getItem c with
+    | none =>
+      dsimp only
+      rw [hgc] at hfc
+      have hf : find db.toS c = none := by simpa using hfc.symm
+      have hd : danglingAt db.toS c = none := by simp [danglingAt, hf]
+      rw [dangling_cons_none hd, ih]
+    | some e =>
+      dsimp only
+      rw [hgc] at hfc
+      have hf : find db.toS c = some e.toS := by simpa using hfc.symm
+      obtain ⟨hwe, _⟩ := getItem_entries_wf hdb hgc
+      have hx := Entry.crossref_toS hwe
+      cases hgx : e.fields.getItem Pybtex.xrefName with
+      | none =>
+        dsimp only
+        rw [hgx] at hx
+        have hd : danglingAt db.toS c = none := by simp [danglingAt, hf, ← hx]
+        rw [dangling_cons_none hd, ih]
+      | some x =>
+        dsimp only
+        rw [hgx] at hx
+        rw [contains_entries hdb x]
+        cases hfx : find db.toS x with
+        | none =>
+          have hd : danglingAt db.toS c = some (c, x) := by simp [danglingAt, hf, ← hx, hfx]
+          rw [dangling_cons_some hd, ih]
+          simp
+        | some P =>
+          have hd : danglingAt db.toS c = none := by simp [danglingAt, hf, ← hx, hfx]
+          rw [dangling_cons_none hd, ih]
+          simp
+
+theorem dangling_append (sdb : SDb) (a b : List Str) : dangling sdb (a ++ b) = dangling sdb a ++ dangling sdb b := by
+  simp [dangling_eq, List.filterMap_append]
+
+/-- `_get_crossreferenced_citations` over the cited list `L`: the appended keys, and the dangling
+cross-references of everything that goes into the bibliography — `L` and the appended keys. -/
 theorem crossreferenced_spec {db : BibData} (hdb : DbWF db) (L : List Str) (m : Int) :
     db.crossreferenced L m =
-      (extra db.toS L m, (dangling db.toS L).map fun p => Report.badCrossref p.1 p.2) :=
-  crossrefAux_spec hdb m L L _ [] [] (xinv_init _ m L)
+      (extra db.toS L m, (dangling db.toS (L ++ extra db.toS L m)).map fun p => Report.badCrossref p.1 p.2) := by
+  unfold BibData.crossreferenced
+  rw [crossrefAux_spec hdb m L L _ [] [] (xinv_init _ m L)]
+  simp only [danglingExtras_spec hdb, dangling_append, List.map_append]
+  rfl
 
 /-! ### consequences of the specification of `extra` -/
 
